@@ -114,7 +114,11 @@ def seek (v : Variant) (L : Layout) (s : RState) (off : Int) (whence : Nat) :
           ({ s with offset := pos, discard := nd }, pos, none)
         else
           let pc := getRecords L.recs s.ri
-          let ri := if ¬ (pc.1.raw ≤ pos ∧ pos ≤ pc.2.raw) then search L.recs pos else s.ri
+          -- D7: the shortcut to the subsequent record used the closed test `pos <= curr.RawOffset`
+          let inNext : Bool := match v with
+            | .orig  => decide (pc.1.raw ≤ pos ∧ pos ≤ pc.2.raw)
+            | .fixed => decide (pc.1.raw ≤ pos ∧ (pos < pc.2.raw ∨ pos = pc.1.raw))
+          let ri := if ¬ inNext then search L.recs pos else s.ri
           let pc := getRecords L.recs ri
           let segIdx := min ri L.recs.length
           let ri' := min (ri + 1) L.recs.length
